@@ -37,6 +37,7 @@ type item struct {
 	segS0 []float64 // arc length at the start of every segment (path order)
 	segS1 []float64
 	curve []bool
+	quad  []bool // quadratic Bezier: measured and cut in closed form (F95, F113)
 }
 
 func P(x, y float64) oracle.Pt { return oracle.Pt{X: x, Y: y} }
@@ -67,6 +68,8 @@ func menu(tier string) []*item {
 	// the same with both end tangents pointing forward: the first control point lies beyond the end
 	// point, the second between the end points (the pen overshoots the end and comes back)
 	add("cube-collinear-two-cusps-forward-tangents", oracle.Chain(false, oracle.MkCube(o, P(6, 0), P(1, 0), P(2, 0))))
+	// almost a cusp: the speed falls to 2 % of its maximum in a hairpin turn (not collinear, no exact cusp)
+	add("cube-near-cusp-hairpin", oracle.Chain(false, oracle.MkCube(o, P(30.4, 28.4), P(-6.8, -5.9), P(2.0, 4.7))))
 	add("cube-collinear-two-cusps-forward-tangents-oblique", oracle.Chain(false, oracle.MkCube(o, P(6, 3), P(0.4, 0.2), P(2, 1))))
 	// closed shapes
 	add("triangle", oracle.Chain(true, oracle.MkLine(o, P(4, 0)), oracle.MkLine(P(4, 0), P(2, 3))))
@@ -118,6 +121,7 @@ func menu(tier string) []*item {
 				it.L += l
 				it.segS1 = append(it.segS1, it.L)
 				it.curve = append(it.curve, s.IsCurve())
+				it.quad = append(it.quad, s.Kind == oracle.CmdQuad)
 			}
 		}
 		c := []float64{0, it.L / 4, it.L / 2, 3 * it.L / 4, it.L}
@@ -360,18 +364,27 @@ func checkReverse(r *fw.R, it *item) {
 // cutTol is the tolerance on the arc-length position of a cut requested at c (input only):
 // straight geometry up to c => 1e-9 L; otherwise one percent of the curved length measured up to
 // the end of the segment(s) around c, at least 1e-3 (canvas measures curved segments with an
-// approximate ruler; the statement allows it about one percent).
+// approximate ruler; the statement allows it about one percent); quadratic Beziers, which are
+// measured in closed form, count with 1e-4 of their length (at least 1e-5 on their own).
 func cutTol(it *item, c float64) float64 {
-	curved := 0.0
+	curved, quads := 0.0, 0.0
 	for k := range it.segS0 {
 		if it.segS0[k] <= c+2e-3 && it.curve[k] {
-			curved += it.segS1[k] - it.segS0[k]
+			if it.quad[k] {
+				quads += it.segS1[k] - it.segS0[k]
+			} else {
+				curved += it.segS1[k] - it.segS0[k]
+			}
 		}
 	}
-	if curved == 0 {
+	if curved == 0 && quads == 0 {
 		return 1e-9 * it.L
 	}
-	return math.Max(0.01*curved, 1e-3)
+	if curved == 0 {
+		// quadratic Beziers only: their length has a closed form, which SplitAt inverts (F113)
+		return math.Max(1e-4*quads, 1e-5)
+	}
+	return math.Max(0.01*curved, 1e-3) + 1e-4*quads
 }
 
 func polylinesOf(sps []oracle.Subpath, n int) []oracle.Polyline {
